@@ -191,6 +191,33 @@ class CmpExtractor:
             acc = True
         return rej
 
+    def plain_accept_return(self, n):
+        b = peel_block(n)
+        while isinstance(b, dict) and b.get("k") == "Block" and not b.get("stmts") and b.get("e"):
+            b = peel_block(b["e"])
+        if isinstance(b, dict) and b.get("k") == "Block" and len(b.get("stmts", [])) == 1 and not b.get("e"):
+            b = b["stmts"][0]
+            if b.get("k") == "ExprS":
+                b = peel_block(b["e"])
+        return isinstance(b, dict) and b.get("k") == "Return" and b.get("e") is not None and self.is_reject_value(b["e"]) is False
+
+    def rest_rejects(self):
+        """do the statements after the current one end, unconditionally, in the rejecting value?"""
+        rest = getattr(self, "cur_rest", None)
+        if not rest:
+            return False
+        stmts, tail = rest
+        if tail is not None:
+            t = peel_block(tail)
+            while isinstance(t, dict) and t.get("k") == "Block" and t.get("e"):
+                t = peel_block(t["e"])
+            return isinstance(t, dict) and self.is_reject_value(t) is True
+        if stmts:
+            last = stmts[-1]
+            e = peel_block(last.get("e")) if last.get("k") == "ExprS" else None
+            return isinstance(e, dict) and e.get("k") == "Return" and e.get("e") is not None and self.is_reject_value(e["e"]) is True
+        return False
+
     def branch_accepts_early(self, n):
         for x in walk(n):
             if x.get("k") == "Continue":
@@ -352,7 +379,7 @@ class CmpExtractor:
             return
         k = n.get("k")
         if k == "Block":
-            for s in n["stmts"]:
+            for si, s in enumerate(n["stmts"]):
                 if s["k"] == "LetS":
                     init = s.get("init")
                     v = self.pv(init, env) if init else None
@@ -371,7 +398,10 @@ class CmpExtractor:
                         self.note_cond_paths(init, env)
                     self.bind(s["pat"], v, env)
                 else:
+                    saved = getattr(self, "cur_rest", None)
+                    self.cur_rest = (n["stmts"][si + 1:], n.get("e"))
                     self.body_expr(s["e"], env, result=False)
+                    self.cur_rest = saved
             if n.get("e"):
                 self.body_expr(n["e"], env, result=True)
             return
@@ -385,6 +415,9 @@ class CmpExtractor:
             t_rej = self.branch_rejects(n["t"])
             f_rej = self.branch_rejects(n.get("f")) if n.get("f") else False
             rw = True if (t_rej and not f_rej) else (False if (f_rej and not t_rej) else None)
+            if rw is None and not n.get("f") and self.plain_accept_return(n["t"]) and self.rest_rejects():
+                # `if a == b { return ACCEPT } ... REJECT`: the early-return form of `if a != b { .. return REJECT } ACCEPT`
+                rw = False
             envc = env
             dpre = len(self.markers)
             # an accepting shortcut (continue / return of the accepting value) taken on a condition that reads only ONE operand
@@ -536,7 +569,10 @@ class CmpExtractor:
                 if cross:
                     self.add("cross-variant-arm", pairs=cross)
             if a.get("guard"):
-                self.cond(a["guard"], env2, None)
+                # `PAT if guard => REJECT`: the guard's truth leads to the rejecting result
+                gb = peel_block(a["body"])
+                grw = True if (isinstance(gb, dict) and self.is_reject_value(gb) is True) else None
+                self.cond(a["guard"], env2, grw)
             self.body_expr(a["body"], env2, result)
             b = peel_block(a["body"])
             if result and isinstance(b, dict) and b.get("k") not in ("Block", "If", "Match", "Return"):
